@@ -38,6 +38,12 @@ def plan(tier, seed):
 	return tasks
 
 
+def _exact(A, B):
+	import struct
+	from mc import refmodel as R
+	return struct.unpack('<f', struct.pack('<I', R.ref_jaccard_f32(list(A), list(B))))[0]
+
+
 def genome_specs(n, missing_attr=None):
 	out = []
 	for i in range(n):
@@ -188,7 +194,7 @@ def t_many(attr, n):
 					for j, item in zip(probes, res.items):
 						sh.evals += 1
 						got = {by_id[getattr(m.genome.genome, attr)]: float(m.distance) for m in item.closest_genomes}
-						if len(got) != n or got[j] != 0.0 or any(got[i] != float(jaccarddist(qarrs[probes.index(j)], np.array(sigs[i], dtype=ks.index_dtype))) for i in range(0, n, 37)):
+						if len(got) != n or got[j] != 0.0 or any(got[i] != _exact(sigs[j], sigs[i]) for i in range(0, n, 37)):
 							sh.violation('distance-not-from-own-signature', dict(case, query=j, chunksize=chunksize), None, None)
 							ok = False
 							break
